@@ -47,7 +47,7 @@ theorem user_key (a : AOpt) (k : Str) (hk : k = kM ∨ k = kP) (h : (pkv a.user)
   | syn n f =>
     exfalso; revert h
     rcases hk with e | e <;> subst e <;> cases n <;> cases f <;> decide
-  | setMark hex x v =>
+  | setMark hex mask x v =>
     exfalso; revert h
     simp only [AOpt.user]
     rcases hk with e | e <;> subst e <;> cases x <;>
